@@ -7,7 +7,7 @@ from mon.gen import mdp as G
 from mon.ref import mdp as Rf
 
 PROP = "C06"
-CASES = {"quick": 1200, "thorough": 24000}
+CASES = {"quick": 1200, "thorough": 60000}
 CASE_TIMEOUT = 60
 REQUIRED = ["elements_compared", "from_matrices_roundtrips", "wrapper_roundtrips", "max_states_calls",
             "table_lookups", "inferred_lists_checked"]
